@@ -58,6 +58,7 @@ type FuncContract struct {
 }
 
 var recvInvRe = regexp.MustCompile(`^invariant\s+\(\*?(\w+)\)\s+(\w+)\s*(\[[A-Z0-9,]*\])?\s+([A-Za-z0-9_\-.]+):\s*(.*)$`)
+var typeInvRe = regexp.MustCompile(`^type-invariant\s+(\w+)\s+(\w+)\s*(\[[A-Z0-9,]*\])?\s+([A-Za-z0-9_\-.]+):\s*(.*)$`)
 var frameRe = regexp.MustCompile(`^postcondition\s+\(\*?(\w+)\)\s*(\[[A-Z0-9,]*\])?\s+([A-Za-z0-9_\-.]+):\s*(.*)$`)
 var defineRe = regexp.MustCompile(`^define\s+(\w+)\(([^)]*)\):\s*(.*)$`)
 var clauseRe = regexp.MustCompile(`^(requires|ensures|lemma|assume|witness|flag)(\[[A-Z0-9,]*\])?\s+([A-Za-z0-9_\-.]+):\s*(.*)$`)
@@ -148,6 +149,18 @@ func (w *World) loadContractFile(pkg, file string) error {
 			key := pkg + "." + m[1]
 			w.recvInv[key] = append(w.recvInv[key], c)
 			cur = &FuncContract{Key: pkg + ".invariant." + m[1], Pkg: pkg, Loops: map[int][]*Clause{}, Params: map[string][]*Clause{}, Flags: map[string]bool{}}
+			last = c
+			continue
+		}
+		if m := typeInvRe.FindStringSubmatch(txt); m != nil {
+			// an invariant of every value of a named struct type that is passed between functions
+			if w.typeInv == nil {
+				w.typeInv = map[string][]*Clause{}
+			}
+			c := &Clause{Kind: "typeinv", Props: parseProps(m[3]), Label: m[4], Text: m[5], Param: m[2], File: file, Line: i + 1}
+			key := pkg + "." + m[1]
+			w.typeInv[key] = append(w.typeInv[key], c)
+			cur = &FuncContract{Key: pkg + ".typeinv." + m[1], Pkg: pkg, Loops: map[int][]*Clause{}, Params: map[string][]*Clause{}, Flags: map[string]bool{}}
 			last = c
 			continue
 		}
